@@ -417,6 +417,20 @@ func (j *quantJudge) genCase(r *gen.RNG, i int) (ref.Bits, int) {
 			}
 		}
 		tail, _ := new(big.Int).SetString(string(ds), 10)
+		if k >= 21 && r.Chance(1, 4) {
+			// the part below the guard digit is an exact multiple of 2^64 (binary image of the dropped decimal tail)
+			g := big.NewInt(int64(r.Pick(0, 0, 5, 5, 4, 9)))
+			t := new(big.Int).Lsh(big.NewInt(int64(r.Range(1, 1<<20))), 64)
+			for t.Cmp(ref.Pow10(k-1)) >= 0 {
+				t.Rsh(t, 1)
+			}
+			if t.BitLen() <= 64 {
+				t.Lsh(ref.One, 64)
+			}
+			if t.Cmp(ref.Pow10(k-1)) < 0 {
+				tail = new(big.Int).Add(new(big.Int).Mul(g, ref.Pow10(k-1)), t)
+			}
+		}
 		c := new(big.Int).Mul(keep, ref.Pow10(k))
 		c.Add(c, tail)
 		e := r.Pick(r.Range(-40, 40), r.Range(-40, 40), r.Exp())
